@@ -460,6 +460,58 @@ def observer_case(rng):
     return Case("observer:" + "+".join(seq), {"text": text, "transformations": seq}, lines, nontrivial=True)
 
 
+def interleaved_readers_case(rng):
+    """two readers alive at the same time (zip over two treebank files, as a tool that aligns two annotations of one
+    text does): what each of them yields must be what it yields alone.  The files are larger than an I/O buffer, plain or
+    gzipped, of the same or of different formats."""
+    import gzip
+    texts = []
+    for which in range(2):
+        fmt = rng.choice(["export", "brackets"])
+        k = rng.choice([130, 160, 220])
+        small = [treegen.gen_tree(rng, treegen.Cfg(n_min=3, n_max=7, disc=(fmt == "export"), p_disc=0.3, none_fields=False,
+                                                   labels=treegen.PLAIN_LABELS, words=[["alpha", "beta", "gamma", "delta"], ["eins", "zwei", "drei", "vier"]][which],
+                                                   punct_words=[",", "."], edges=["HD", "--"])) for _ in range(12)]
+        s = io.StringIO()
+        for i in range(k):
+            c = clone_sid(small[(i * 7 + which) % 12]) if small[(i * 7 + which) % 12].data.get('sid') else clone(small[(i * 7 + which) % 12])
+            c.data['sid'] = i + 1
+            getattr(treeoutput, fmt)(c, s)
+        texts.append((fmt, s.getvalue()))
+    gz = rng.random() < 0.6
+
+    def enc(it):
+        return [(t.data['sid'], proto.enc_tree(t, canon=True)) for t in it]
+    with cli.Scratch() as sc:
+        paths = []
+        for i, (fmt, text) in enumerate(texts):
+            if gz:
+                p = sc.path("tb%d.%s.gz" % (i, fmt))
+                with gzip.open(p, "wb") as f:
+                    f.write(text.encode("utf-8"))
+            else:
+                p = sc.write("tb%d.%s" % (i, fmt), text)
+            paths.append(p)
+        try:
+            with quiet():
+                alone = [enc(getattr(treeinput, texts[i][0])(paths[i], "utf-8", quiet=True)) for i in range(2)]
+                ra = getattr(treeinput, texts[0][0])(paths[0], "utf-8", quiet=True)
+                rb = getattr(treeinput, texts[1][0])(paths[1], "utf-8", quiet=True)
+                both = [[], []]
+                for ta, tb in zip(ra, rb):
+                    both[0].append((ta.data['sid'], proto.enc_tree(ta, canon=True)))
+                    both[1].append((tb.data['sid'], proto.enc_tree(tb, canon=True)))
+            n = min(len(alone[0]), len(alone[1]))
+            a = repr([alone[0][:n], alone[1][:n]])
+            b = repr([both[0][:n], both[1][:n]])
+        except Exception as e:
+            a, b = "raised", proto.err_name(e)
+    lines = [Line("pred", "P.C18.eq", [proto.enc_s(a), proto.enc_s(b)],
+                  note="two %s readers consumed in step (%s / %s) vs each alone" % ("gzip" if gz else "plain", texts[0][0], texts[1][0]))]
+    return Case("interleaved-readers", {"formats": [t[0] for t in texts], "gz": gz, "sentences": [t[1].count("#BOS") or t[1].count("\n") for t in texts]},
+                lines, nontrivial=True)
+
+
 ROUND = [1 << 8, 1 << 10, 1 << 12, 1 << 15, 1 << 16, 1000, 10000, 100000, 1 << 17]
 
 
@@ -517,6 +569,8 @@ def long_process_case(rng):
 
 def gen(seed, tier, scale):
     idx = 0
+    for i in range((6 if tier == "quick" else 60) * scale):
+        yield 810000 + i, interleaved_readers_case(case_rng(seed, ID, 810000 + i))
     for i in range((40 if tier == "quick" else 400) * scale):
         yield 800000 + i, long_process_case(case_rng(seed, ID, 800000 + i))
     for _ in range((200 if tier == "quick" else 4000) * scale):
